@@ -71,6 +71,17 @@ Theorem C02_history_duration_monotone :
 Proof. exact history_duration_monotone. Qed.
 Print Assumptions C02_history_duration_monotone.
 
+(** The hypotheses of the three history theorems are met by a non-trivial
+    split of a concrete history (both parts non-empty, both channels extended). *)
+Theorem C02_history_example :
+  senv_ok wenv /\
+  (exists c, find_chan 0 (q_sched (run wenv (firstn 2 wops))) = Some c /\ ch_slots c <> []) /\
+  firstn 2 wops ++ skipn 2 wops = wops /\
+  map (fun c => length (ch_slots c)) (q_sched (run wenv (firstn 2 wops))) = [1%nat; 1%nat] /\
+  map (fun c => length (ch_slots c)) (q_sched (run wenv (firstn 2 wops ++ skipn 2 wops))) = [2%nat; 2%nat].
+Proof. exact history_example. Qed.
+Print Assumptions C02_history_example.
+
 (** The reported duration of a channel is the end of its newest instruction,
     which is the latest end of all its instructions. *)
 Theorem C02_duration_is_last_end :
